@@ -85,6 +85,7 @@ type ContractSet struct {
 	UFuns    map[string]*UFun
 	GhostVars map[string]string // ghost state variables: name -> Go integer type name (ghostvar NAME TYPE)
 	AutoInline []string         // dependency packages whose contract-less functions are executed inline
+	PkgNeeds map[string][]string // property -> extra package paths its check must load (needs Cnn)
 	Axioms   []*Axiom
 	Files    []string
 	Instances map[string][]string // function key -> keys of its instance contracts ("key@label")
@@ -490,6 +491,18 @@ func (cs *ContractSet) parseLines(lines []string, file, pkgPath, schemaDir strin
 			default:
 				ts.Num = &cl
 			}
+			cur = nil
+			continue
+		case "needs":
+			// needs Cnn: the check of property Cnn must load this package as well (it holds implementors of an
+			// interface contract that is instantiated on every implementor in the loaded program)
+			if len(fields) != 2 || pkgPath == "" {
+				return fmt.Errorf("%s: needs PROPERTY (in a package's contract file)", where)
+			}
+			if cs.PkgNeeds == nil {
+				cs.PkgNeeds = map[string][]string{}
+			}
+			cs.PkgNeeds[fields[1]] = append(cs.PkgNeeds[fields[1]], pkgPath)
 			cur = nil
 			continue
 		case "autoinline":
